@@ -17,7 +17,7 @@ from pfv.proxies import explore, SReal, Unsupported
 
 PROP = 'C18'
 F_ = 'pfhedge.nn.functional.'
-FUNCTIONS = [F_ + 'd1', F_ + 'd2'] + [F_ + 'bs_%s_%s' % (fam, w) for fam in ('european', 'european_binary', 'american_binary', 'lookback')
+FUNCTIONS = [F_ + 'd1', F_ + 'd2', F_ + 'ww_width'] + [F_ + 'bs_%s_%s' % (fam, w) for fam in ('european', 'european_binary', 'american_binary', 'lookback')
                                         for w in ('price', 'delta', 'gamma', 'vega', 'theta')]
 ASSUMPTIONS = [
     'extended-real evaluation follows IEEE-754 for x/0, 0/0, 0*inf, inf-inf, comparisons with nan; zero is +0 (denominators are products of non-negative factors); ncdf(+-inf) = 1/0, npdf(+-inf) = 0, exp(-inf) = 0; every evaluated case is also replayed on real torch (float64) when it fails',
@@ -170,6 +170,16 @@ def build(tier, seed):
                 calls = spec['calls'] if sig(family, which, True)[2] is not None else (None,)
                 for call in calls:
                     obs.append(raises_ob(family, which, call if sig(family, which, call)[2] is not None else None, neg))
+    # Whalley-Wilmott band width is defined (finite) for every real gamma, incl. negative gamma of binaries:
+    # the definedness obligations of the real ww_width (fractional powers) must be provable without a sign assumption
+    from contracts import c20
+    from pfv import fc
+    for ob in c20.helper_obs(seed):
+        if ob.id == 'C20/ww_width/post':
+            ob.id = 'C18/ww_width/total[all real gamma]'
+            ob.props = [PROP]
+            ob.clause = 'ww_width(gamma, spot, cost, a) is defined and equals (3 c gamma^2 S/(2a))^(1/3) for every real gamma (negative gammas occur for binaries), cost >= 0, a > 0, S > 0'
+            obs.append(ob)
     # canary: the engine must see 0/0 as nan
     def canary():
         t0 = time.time()
